@@ -166,6 +166,12 @@ pub fn generate(rng: &mut Rng, plan: &mut Plan, _index: u64) {
         plan.add_program(&name, ops);
         d.progs.push(name);
     }
+    // a signal (handler installed by the application) arrives while the parent is blocked
+    if rng.chance(1, 4) {
+        let mask = *rng.pick(&[1u8, 4, 4, 7, 7]);
+        plan.knobs.faults.eintr = Some((1 + rng.below(4) as u32, 1 + rng.below(3) as u32, mask));
+        plan.knobs.batch = "faulty".into();
+    }
     plan.body = Body::Drop(d);
 }
 
@@ -221,6 +227,7 @@ pub fn run(_plan: &Plan, d: &DropPlan) -> FamOut {
         ($r:expr, $label:expr) => {{
             match $r {
                 Err(pm) => violate("panic", format!("panic/in={}", $label), pm),
+                Ok(Err(e)) if is_eintr(&e) && eintr_fired() => sim().k.probe("call_failed_with_eintr"),
                 Ok(Err(e)) => violate("spawn_failed", format!("spawn_failed/{:?}", e), format!("{} failed: {:?}", $label, e)),
                 Ok(Ok(mut rd)) => {
                     let mut got = 0usize;
@@ -251,6 +258,7 @@ pub fn run(_plan: &Plan, d: &DropPlan) -> FamOut {
         ($w:expr, $label:expr) => {{
             match $w {
                 Err(pm) => violate("panic", format!("panic/in={}", $label), pm),
+                Ok(Err(e)) if is_eintr(&e) && eintr_fired() => sim().k.probe("call_failed_with_eintr"),
                 Ok(Err(e)) => violate("spawn_failed", format!("spawn_failed/{:?}", e), format!("{} failed: {:?}", $label, e)),
                 Ok(Ok(mut wr)) => {
                     let total = d.consume.unwrap_or(input.len()).min(input.len());
@@ -281,6 +289,7 @@ pub fn run(_plan: &Plan, d: &DropPlan) -> FamOut {
             let path = format!("/bin/{}", d.progs[0]);
             match lib("Popen::create", || Popen::create(&[path.as_str()], cfg)) {
                 Err(pm) => violate("panic", "panic/in=Popen::create".into(), pm),
+                Ok(Err(e)) if is_eintr(&e) && eintr_fired() => sim().k.probe("call_failed_with_eintr"),
                 Ok(Err(e)) => violate("spawn_failed", format!("spawn_failed/{:?}", e), format!("Popen::create failed: {:?}", e)),
                 Ok(Ok(mut p)) => {
                     // the caller releases what it can release
@@ -298,6 +307,7 @@ pub fn run(_plan: &Plan, d: &DropPlan) -> FamOut {
             let e = exec(0);
             match lib("Exec::join", || e.join()) {
                 Err(pm) => violate("panic", "panic/in=Exec::join".into(), pm),
+                Ok(Err(e)) if is_eintr(&e) && eintr_fired() => sim().k.probe("call_failed_with_eintr"),
                 Ok(Err(e)) => violate("spawn_failed", format!("spawn_failed/{:?}", e), format!("join failed: {:?}", e)),
                 Ok(Ok(_)) => {}
             }
@@ -306,6 +316,7 @@ pub fn run(_plan: &Plan, d: &DropPlan) -> FamOut {
             let p = pipeline();
             match lib("Pipeline::join", || p.join()) {
                 Err(pm) => violate("panic", "panic/in=Pipeline::join".into(), pm),
+                Ok(Err(e)) if is_eintr(&e) && eintr_fired() => sim().k.probe("call_failed_with_eintr"),
                 Ok(Err(e)) => violate("spawn_failed", format!("spawn_failed/{:?}", e), format!("join failed: {:?}", e)),
                 Ok(Ok(_)) => {}
             }
